@@ -773,6 +773,63 @@ class _ExplicitAug(_ast.NodeTransformer):
         return n
 
 
+def _rename_kernel_params(src):
+    """Every parameter of every @njit kernel gets a new name (consistently inside the kernel; call sites are positional)."""
+    out = dict(src)
+    for k, v in src.items():
+        if k in ("hll_constants", "hll_bias_experiment", "__init__"):
+            continue
+        tree = _ast.parse(v)
+        for f in _ast.walk(tree):
+            if isinstance(f, _ast.FunctionDef) and any("njit" in _ast.unparse(d) for d in f.decorator_list):
+                names = {a.arg for a in f.args.args}
+                for a in f.args.args:
+                    a.arg = a.arg + "_p"
+                r = _Rename(set())
+                r.names = names
+
+                class R(_ast.NodeTransformer):
+                    def visit_Name(self, n):
+                        if n.id in names:
+                            return _ast.copy_location(_ast.Name(id=n.id + "_p", ctx=n.ctx), n)
+                        return n
+                f.body = [R().visit(s_) for s_ in f.body]
+        # keyword call sites of kernels (none in the pinned tree) are left alone on purpose
+        out[k] = _ast.unparse(_ast.fix_missing_locations(tree)) + "\n"
+    return out
+
+
+def _rename_private_functions(src):
+    """Every private module-level function (`_name`) is renamed to `_name_impl` throughout the package (definitions, calls, imports)."""
+    privates = set()
+    for k, v in src.items():
+        if k in ("hll_constants", "hll_bias_experiment", "__init__"):
+            continue
+        for n in _ast.parse(v).body:
+            if isinstance(n, _ast.FunctionDef) and n.name.startswith("_") and not n.name.startswith("__"):
+                privates.add(n.name)
+    out = dict(src)
+    for k, v in src.items():
+        if k in ("hll_constants", "hll_bias_experiment", "__init__"):
+            continue
+        tree = _ast.parse(v)
+        for n in _ast.walk(tree):
+            if isinstance(n, _ast.FunctionDef) and n.name in privates and n in tree.body:
+                n.name = n.name + "_impl"
+            elif isinstance(n, _ast.Name) and n.id in privates:
+                n.id = n.id + "_impl"
+            elif isinstance(n, _ast.ImportFrom):
+                for a in n.names:
+                    if a.name in privates:
+                        a.name = a.name + "_impl"
+        out[k] = _ast.unparse(_ast.fix_missing_locations(tree)) + "\n"
+    return out
+
+
+add("E-global-08-rename-kernel-parameters", ALL_PROPS, "*", _rename_kernel_params, None, kind="E",
+    note="every parameter of every @njit kernel renamed (call sites are positional)")
+add("E-global-09-rename-private-functions", ALL_PROPS, "*", _rename_private_functions, None, kind="E",
+    note="every private module-level function/kernel renamed throughout the package")
 add("E-global-05-invert-every-if-else", ALL_PROPS, "*", _package_transform(lambda t: _InvertIfElse().visit(t)), None, kind="E",
     note="every if/else has its arms swapped under a negated test (elif chains become nested ifs)")
 add("E-global-06-flip-every-comparison", ALL_PROPS, "*", _package_transform(lambda t: _FlipCompares().visit(t)), None, kind="E",
